@@ -9,7 +9,7 @@ from ..rules_stream import r_guard_exact, is_store
 from ..rules_sib import P, returns
 from ..witness import run_witnesses
 from .seqdefs import seq_obligations
-from . import c14, c16, c19
+from . import c05, c14, c16, c19
 
 M = "OP2Utility::Map"
 
@@ -88,7 +88,7 @@ def header_fields(F, S):
         if is_store(nd) and len(ch.kids(nd["id"])) == 2:
             l = ch.term(ch.kids(nd["id"])[0])
             if l[0] == "mem" and l[1][0] == "var":
-                got[l[2]] = ch.term(ch.kids(nd["id"])[1])
+                got[l[2]] = c05.resolve(ch.term(ch.kids(nd["id"])[1]), c05.alias_defs(ch))
     probs = [k for k, v in want.items() if got.get(k) != v]
     lg = got.get("lgWidthInTiles")
     if not (lg and lg[0] == "call" and lg[1].endswith("GetWidthInTilesLog2") and lg[3] == (("mem", ("this",), "widthInTiles"),)):
@@ -155,8 +155,15 @@ def check(F, run, tier):
                                  "OP2Utility::Rect", "OP2Utility::Range16"],
                      constants=["OP2Utility::MapHeader::MinMapVersion", "OP2Utility::MapHeader::CurrentMapVersion", "OP2Utility::tilesetHeader"]))
     k = 0
-    for q, np_ in (("OP2Utility::Map::CreateHeader", 0), ("OP2Utility::Map::WriteTileGroups", 2), ("OP2Utility::Map::WriteContainerSize", 2)):
-        o, c = r_narrow(F, S, F.fn(q, nparams=np_), explicit_only=True)
+    swept = set()
+    for q, np_, host in (("OP2Utility::Map::CreateHeader", 0, None), ("OP2Utility::Map::WriteTileGroups", 2, None),
+                         ("OP2Utility::Map::WriteContainerSize", 2, ("OP2Utility::Map::WriteTileGroups", 2))):
+        # a private helper may have been inlined into its caller, which is swept anyway
+        fn_ = F.fn_or_host(q, np_, host[0], host[1])[0] if host else F.fn(q, nparams=np_)
+        if fn_.key in swept:
+            continue
+        swept.add(fn_.key)
+        o, c = r_narrow(F, S, fn_, explicit_only=True)
         run.add(o)
         k += c
     run.floor("R-NARROW", k, 3)
